@@ -20,7 +20,7 @@ ASSUMPTIONS = ['unittest itself turns SystemExit in a test into an error',
                'world hooks report facts truthfully']
 FLOORS = {'faults_fired': 100, 'tests_after_fault': 100, 'multi_event': 10,
           'buffer_cases': 30, 'child_cases': 5, 'cli_cases': 30,
-          'color_or_progress': 60}
+          'color_or_progress': 60, 'names_checked': 150}
 BATCH_TIMEOUT = 300
 
 EXCS = ['ValueError', 'KeyError', 'NeedsArgs', 'CustomDerived', 'Chained',
@@ -264,6 +264,25 @@ def run_case(case):
                          'detail': {'layer': lname,
                                     'got': blk and blk['ran'], 'rep': rep,
                                     'out': w.out[-800:]}})
+    # 5. "recorded against that test": every faulty test that ran is named
+    # in the final failure / error lists (printed with -v), in every mode
+    if (opts.get('verbose') or 0) >= 1:
+        listed = list(info['failures_list'] or []) + \
+            list(info['errors_list'] or [])
+        for tid in fired:
+            ts, layer = tests[tid]
+            short = 'UNIT' if layer is None else layer
+            if model.closure(short) & su_fail:
+                continue
+            counters['names_checked'] = counters.get('names_checked', 0) + 1
+            s0 = vworld.test_str(tid)
+            if not any(n.startswith(s0) for n in listed):
+                viol.append({'rule': 'failure-not-recorded-against-its-test',
+                             'mech': 'contain-name-missing',
+                             'detail': {'test': tid, 'kind': ts['kind'],
+                                        'listed': listed[:8], 'opts': opts,
+                                        'plan': plan,
+                                        'out': w.out[-600:]}})
     if len(want) > 1 and info['total'] is None:
         viol.append({'rule': 'totals-line-missing',
                      'mech': 'contain-totals-missing',
